@@ -13,8 +13,12 @@ use crate::selector::{Selector, SelectorList};
 pub(crate) struct ExtendedSelector(Rc<RefCell<SelectorList>>);
 
 impl PartialEq for ExtendedSelector {
+    // Identity, like `Hash` below. Comparing by value while hashing by address
+    // breaks the contract of `HashSet`: two rules with equal selector lists
+    // (e.g. `\.foo` and `\2E foo`) were only both kept in a `SelectorHashSet`
+    // as long as their addresses did not happen to collide in the table.
     fn eq(&self, other: &Self) -> bool {
-        self.0 == other.0
+        Rc::ptr_eq(&self.0, &other.0)
     }
 }
 
